@@ -316,6 +316,9 @@ impl<'a> Run<'a> {
         // Remove from running.
         self.running.write().remove(module.as_ref());
 
+        #[cfg(routinator_verif)]
+        crate::utils::sync::verif_pause("rsync-module-bookkeeping");
+
         // Insert into updated map no matter what.
         self.updated.write().insert(module.into_owned());
     }
